@@ -321,6 +321,7 @@ fn cmd_run(args: &[String]) -> i32 {
         "executions": execs.load(Ordering::Relaxed),
         "distinct_programs": sigs.lock().unwrap().len(),
         "distinct_interleavings": inter.lock().unwrap().len(),
+        "schedule_set_hash": format!("{:016x}", inter.lock().unwrap().iter().fold(0u64, |a, x| a.rotate_left(5) ^ x)),
         "interleaving_measure": "distinct serialised shuttle schedules (task choice at every scheduling point)",
         "scenario_kinds": *kinds.lock().unwrap(),
         "programs_failing_without_threads": not_schedule_dependent.load(Ordering::Relaxed),
